@@ -150,6 +150,17 @@ func (w *Worker) Violation(key, what string, replay any) {
 	w.vkeys[key] = len(w.Rep.Violations)
 	w.Rep.Violations = append(w.Rep.Violations, Violation{Key: key, What: what, Replay: replay, Count: 1})
 }
+
+// HasViolationPrefix reports whether a violation whose key contains sub was already recorded by this worker.
+func (w *Worker) HasViolationPrefix(sub string) bool {
+	for k := range w.vkeys {
+		if strings.Contains(k, sub) {
+			return true
+		}
+	}
+	return false
+}
+
 func (w *Worker) Inexhaustive(why string) { w.Rep.Inexhaust = append(w.Rep.Inexhaust, why) }
 func (w *Worker) Broken(format string, a ...any) {
 	w.Rep.Broken = append(w.Rep.Broken, fmt.Sprintf(format, a...))
